@@ -15,7 +15,7 @@ import contextlib
 import random
 from typing import Any, Dict, Iterable, List, Optional
 
-from harness.core import Case, Check, Finding, err_name
+from harness.core import OUTSIDE, Case, Check, Finding, err_name
 
 PAGE_NS = 'http://schema.primaresearch.org/PAGE/gts/pagecontent/2013-07-15'
 
@@ -1095,7 +1095,10 @@ class C06(Check):
             if rng.random() < 0.5:
                 out.append(Case('malformed', {'spec': spec, 'route': route, 'op': rng.choice(MALFORM_OPS),
                                               'which': rng.randint(0, 30), 'as_string': rng.random() < 0.5},
-                                [route, 'malformed']))
+                                # a JSON view with a key removed or a value damaged is the JSON view of no document:
+                                # "rebuilding a document from it [its JSON view]" does not speak about it — mirrored by
+                                # the model, a difference is recorded only (probe 2, C06-unsupported-json-type-error-bp)
+                                [route, 'malformed', OUTSIDE]))
         return out
 
     # ---------------------------------------------------------------- implementation
